@@ -58,6 +58,7 @@ def execute(cfgs, parallel=None, timeout=240, env_extra=None, label='run'):
         it.ddmin = it.conv.ddmin()
         # last: the numbering of the inputs is complete then
         it.session = it.conv.session()
+        it.outer = it.conv.ddmin_outer()
         return it
 
     with ThreadPoolExecutor(parallel) as ex:
@@ -76,8 +77,13 @@ def validate(rep, items):
     ss = [it for it in items if getattr(it, 'session', None) is not None]
     sv = tracecheck.validate('TraceSession', 'TraceSession.cfg',
                              [it.session for it in ss])
+    os_ = [it for it in items if getattr(it, 'outer', None) is not None]
+    ov = tracecheck.validate('TraceDdminOuter', 'TraceDdminOuter.cfg',
+                             [it.outer for it in os_])
     for it in items:
-        it.hier_v = it.ddmin_v = it.session_v = None
+        it.hier_v = it.ddmin_v = it.session_v = it.outer_v = None
+    for it, v in zip(os_, ov):
+        it.outer_v = v
     for it, v in zip(ss, sv):
         it.session_v = v
     st = tr = 0
@@ -119,7 +125,9 @@ def trace_violations(rep, it, clauses=None, prefix=''):
     for strat, v, rec in (('hier', it.hier_v, it.hier),
                           ('ddmin', it.ddmin_v, it.ddmin),
                           ('session', getattr(it, 'session_v', None),
-                           getattr(it, 'session', None))):
+                           getattr(it, 'session', None)),
+                          ('ddmin-outer', getattr(it, 'outer_v', None),
+                           getattr(it, 'outer', None))):
         if v is None or v[0] == 'accept':
             continue
         if v[0] == 'reject':
